@@ -121,7 +121,8 @@ def run(ctx):
             if kind == "start":
                 continue
             want_h = L if peak(prev) == 0 else min(phi / (gamma * peak(prev)), L)        # the step the design prescribes from the field before it
-            steps.append({"kind": kind, "hk_ppb": 0 if kind == "last" else int(min(10 ** 9, abs(h / want_h - 1) * 1e9)), "forward": bool(h > 0),
+            steps.append({"kind": kind, "hk_ppb": 0 if kind == "last" else int(min(10 ** 9, abs(h / want_h - 1) * 1e9)),
+                          "over_ppb": int(min(10 ** 9, max(0.0, h / want_h - 1) * 1e9)), "forward": bool(h > 0),
                           "inside": bool(sum(hh for kk, hh, AA in log[:len(steps) + 2] if kk != "start") <= L * (1 + 1e-9))})
             prev = A
             pmax = max(pmax, peak(A))
@@ -189,6 +190,38 @@ def run(ctx):
                 ctx.case(("soliton", m, phi, npol), {"soliton": {"beta2": b2, "T0_ps": T0, "gamma": g, "m": m, "phi_max": phi, "rel_err": e}})
         events.append({"kind": "order", "name": "soliton-error-shrinks-with-phi_max", "coarse_ppm": int(errs[(0.1, 1)] * 1e6), "fine_ppm": int(errs[(0.0125, 1)] * 1e6), "factor": 8})
         meta.append(("order", "soliton"))
+    # convergence against an independent fixed-step reference integration of the same equation (symmetric split step, 4000 equal steps:
+    # its own error is O(1/steps^2), far below the bounds judged), in the regimes the adaptive controller distinguishes
+    def reference(f, L, al_dB, b2, b3, g, steps=4000):
+        w = 2 * math.pi * np.fft.fftfreq(f.shape[-1]) * gv.fs * 1e-12
+        h = L / steps
+        lin = np.exp((-(al_dB / 4.343) / 2 - 0.5j * b2 * w ** 2 - 1j / 6 * b3 * w ** 3) * h)
+        A = np.array(f, dtype=complex)
+        for _ in range(steps):
+            A = A * np.exp(1j * g * (h / 2) * np.abs(A) ** 2)
+            A = np.fft.ifft(lin * np.fft.fft(A, axis=-1), axis=-1)
+            A = A * np.exp(1j * g * (h / 2) * np.abs(A) ** 2)
+        return A
+    setgv(1)
+    regimes = [(-20.0, 0.1), (0.0, 0.4), (15.0, 0.0), (0.0, -0.3)] + ([(-5.0, -0.2), (25.0, 0.3)] if T else [])
+    for it, (b2, b3) in enumerate(regimes):
+        rs = np.random.RandomState(700 + it)
+        n = 512
+        f = rs.randn(n) + 1j * rs.randn(n)
+        f = np.fft.ifft(np.fft.fft(f) * np.exp(-(np.fft.fftfreq(n) * 14) ** 2))
+        f = f / np.sqrt(peak(f)) * math.sqrt(0.2)
+        L, al, g = 30.0, [0.2, 0.0][it % 2], 1.2
+        npol = 1 + it % 2
+        fld = f if npol == 1 else np.array([f, 0.5 * f[::-1]])
+        ref = reference(fld, L, al, b2, b3, g)
+        errs = {}
+        for phi in (0.08, 0.01):
+            with deadline(600):
+                o = FIBER(optical_signal(fld), L, al, b2, b3, g, phi).signal
+            errs[phi] = float(np.max(np.abs(o - ref)) / np.max(np.abs(ref))) if np.all(np.isfinite(o)) else 1e3
+            events.append({"kind": "conv", "name": "reference-integration-error<=C*phi_max", "err_ppm": int(min(10 ** 9, errs[phi] * 1e6)), "phi_ppm": int(phi * 1e6)})
+            meta.append(("conv", "reference", phi))
+        ctx.case(("reference", b2 != 0, b3 != 0, npol, al > 0), {"reference-integration": {"beta_2": b2, "beta_3": b3, "errors": errs}})
     # self-convergence on general inputs
     setgv(1)
     for it in range(20 if T else 3):
